@@ -77,12 +77,43 @@ def check(run):
                "resumes) - once Do has returned nothing is attached" % rounds,
                rc == 0 and not st.get("late_attached") and "error" not in st, json.dumps(st)[:1500])
     run.cov["shutdown_race"] = {k: st.get(k) for k in ("rounds", "do_returned_first", "attempt_admitted_first")}
+    # the HTTP level, with and without -one-shell: half-attached shells which end (a disconnected event with no connected one before it) must leave the
+    # listener as freshly started - still open, the next shell accepted and announced ready
+    import c12
+    okh, hbin, hlog = vlib.build_overlay_test(run.rundir, "internal/hsrv", go="go")
+    if not okh:
+        run.oblige("hsrv harness builds against /repo", False, hlog)
+    else:
+        hc = [c12.scenario(run.rng, one, kind, pre) for one in (True, False) for kind, pre in (("in-out", ["half-in"]), ("io", ["half-out"]), ("out-in", ["half-in", "half-out", "half-in"]))]
+        if run.tier != "quick":
+            hc += [c12.scenario(run.rng, one, kind, pre) for one in (True, False) for kind in ("in-out", "out-in", "io") for pre in (["half-out", "half-out"], ["half-in", "refused"], ["refused", "half-out"])]
+        hsend = [{k: v for k, v in c.items() if not k.startswith("_")} for c in hc]
+        import concurrent.futures as cf
+        def hone(k):
+            return vlib.run_overlay_test(hbin, "TestVerifHsrv", [dict(hsend[k], i=k)], run.rundir, tag="c04h_%d" % k, env=dict(os.environ, VERIF_TMP=run.rundir), timeout=300)
+        with cf.ThreadPoolExecutor(max_workers=8) as ex:
+            houts = list(ex.map(hone, range(len(hsend))))
+        hres = [o[0][0] if o[0] else None for o in houts]
+        if any(o[1] for o in houts) or any(r is None for r in hres):
+            run.oblige("hsrv harness ran the half-attached scenarios", False, str([o[1] for o in houts if o[1]][:2]))
+        else:
+            hin = [dict(c["_desc"], probes=[(m[1], a.get("open")) for m, a in zip(c["_marks"], r.get("acts") or []) if m[0] == "probe"]) for c, r in zip(hc, hres)]
+            vlib.judge_stream(run, "halfattached", c12.IMPORTS, "case", hin, hres, lambda i, r: c12.term(hc[hin.index(i)], r),
+                              {1: "after a half-attached shell had ended (a disconnected event without a connected one) the listener was not as freshly started: "
+                                  "its socket refused connections before any shell was fully attached, or stayed open after the one shell was ready",
+                               2: "callback help offered again after the one shell", 3: "Server.Do did not end by itself after the one shell",
+                               4: "the shell attached after half-attached ones did not work"}, (),
+                              "real Server over TLS with and without -one-shell: one to three half-attached shells (/i or /o alone) come and go, the listening "
+                              "socket is probed with connect(2) after each, then a full shell attaches (/i+/o, /o+/i or /io), works and ends",
+                              key_fn=lambda i: json.dumps(i["before"]) + i["attach"] + str(i["one_shell"]))
     # event listeners which come and go (library use): shells live and die unheard, then somebody listens
     plans = [[0, 0], [1, 0], [2, 3], [0, 1], [600, 1]] if run.tier == "quick" else [[a, b] for a in (0, 1, 2, 5) for b in (0, 1, 4)] + [[600, 1], [1500, 600]]
+    # capacity of each window's listener channel: EVChanLen, or 1 / 2 (such a listener reads only after its shell has gone: the pump must wait for it)
+    caps = [[[1024, 1], [1, 1024], [2, 1], [1, 1], [1024, 1]][k % 5] for k in range(len(plans))]
     outl = os.path.join(run.rundir, "listen.json")
     try:
         rc, o, e = vlib.sh([binp, "-test.run", "^TestVerifListeners$", "-test.count=1"], cwd=run.rundir, timeout=900,
-                           env=dict(os.environ, VERIF_OUT=outl, VERIF_LISTEN=json.dumps(plans)))
+                           env=dict(os.environ, VERIF_OUT=outl, VERIF_LISTEN=json.dumps(plans), VERIF_LISTEN_CAPS=json.dumps(caps)))
         lres = json.load(open(outl))
     except Exception as ex:
         rc, lres = 1, [{"plan": None, "problem": "harness: %s" % ex, "windows": []}]
@@ -92,13 +123,15 @@ def check(run):
         evn = {"connected": "0%N", "disconnected": "1%N"}
         def lterm(pl, r):
             wins = "; ".join("[%s]" % "; ".join(evn.get(e, "9%N") for e in w) for w in r.get("windows") or [])
-            return "mkl [%s] [%s] %s" % ("; ".join("%d%%N" % n for n in pl), wins, "true" if r.get("problem") else "false")
+            return "mkl [%s] [%s] [%s] %s" % ("; ".join("%d%%N" % n for n in pl), "; ".join("%d%%N" % n for n in caps[plans.index(pl)]), wins,
+                                             "true" if r.get("problem") else "false")
         vlib.judge_stream(run, "listeners", "From CRS Require Import Lib.Bytes Model.Events Judge.Common Judge.Listen.", "lcase", plans, lres, lterm,
                           {1: "in a series of shells with event listeners coming and going a shell was not accepted, not torn down or not announced exactly once",
                            2: "a listener which registered after shells had lived and died unheard did not get exactly one connected and one disconnected event "
-                              "for the next shell", 11: "Model/Events.plan_windows differs from what the listeners of the real Broker received"}, (0,),
+                              "for the next shell", 11: "Model/Events.plan_windows differs from what the listeners of the real Broker received",
+                           12: "Model/EventsCap.cplan_windows (listener channels of capacity 1 / 2 / 1024) differs from what the listeners received"}, (0,),
                           "event listeners come and go (real scheduler): per plan, twice: 0 to 1500 shells in series with nobody listening (ending by EOF / input "
-                          "cancel / output cancel), then a listener registers, one shell lives and dies, the listener leaves; each listener must have received "
+                          "cancel / output cancel), then a listener registers (channel of capacity 1024, 2 or 1 - read only after the shell has gone), one shell lives and dies, the listener leaves; each listener must have received "
                           "exactly [connected, disconnected] = Model/Events.plan_windows", key_fn=lambda pl: json.dumps(pl))
     run.assumptions += ["'nothing keeps running' is observed as: no goroutine with a Broker frame after all readers returned EOF and all contexts were "
                         "cancelled, inside testing/synctest; the proof side covers the bookkeeping (slots, key, wait group)"]
